@@ -84,6 +84,9 @@ def _rib(only, quick, thorough):
         if r["harness"] in ("VfRIB_qo", "VfRIB_tOrder", "VfRIB_q3h"):
             r["replay_attempts"] = 40   # counterexamples depend on Go's randomised map iteration order
             r["replay_candidates"] = 4
+        if r["harness"] == "VfRIB_qPfx":
+            # concrete prefixes: code that parses them (net/netip) runs on its real, initialised package state
+            r["initpkg"] = ["net/netip"]
     return rs
 
 _B = dict(
@@ -106,7 +109,8 @@ _B["VfRIB_big"] = "scale: a large pre-state of concrete shape built through the 
 _RS = [("VfRIB_big", _B["VfRIB_big"])]
 _B["VfRIB_q3h"] = "the stale held REPLACE of q3 next to TWO further held operations (groups waiting for a next-hop - possibly the group the REPLACE waits for - or IPv4 entries, possibly the REPLACE's own key), then one symbolic next-hop / group ADD that starts a cascade; every iteration order of the held-operation map"
 _B["VfRIB_qW"] = "weighted groups: members carry an optional weight of ANY 64-bit value (0 included); pre-state 1 next-hop, 1 group (<=1 member), 1 held IPv4 entry; one symbolic group ADD/REPLACE/DELETE of <=2 distinct members; forward references allowed or disallowed"
-_RQ = [(h, _B[h]) for h in ("VfRIB_q1", "VfRIB_q2", "VfRIB_qNoFwd", "VfRIB_qx", "VfRIB_qo", "VfRIB_q3", "VfRIB_q3h", "VfRIB_qW")]
+_B["VfRIB_qPfx"] = "prefix spellings: prefixes are drawn from concrete lists of accepted spellings (IPv4 10.0.0.0/8, 10.1.2.3/8, 10.0.0.0/16; IPv6 2001:db8::/64, 2001:db8::1/64, 2001:DB8::/64, 2001:db8:0::/64) - the tables are keyed by the string as sent; pre-state 1 next-hop, 1 group, 1 IPv4 or IPv6 entry; one symbolic operation of any kind / type over the same lists"
+_RQ = [(h, _B[h]) for h in ("VfRIB_q1", "VfRIB_q2", "VfRIB_qNoFwd", "VfRIB_qx", "VfRIB_qo", "VfRIB_q3", "VfRIB_q3h", "VfRIB_qW", "VfRIB_qPfx")]
 _B["VfRIB_t1r"] = "as q1 (IPv4 entries) with optional payload fields everywhere (next-hop tag / pop-top-label, backup group, metadata); one symbolic operation"
 _B["VfRIB_t3e"] = "histories from the EMPTY two-instance RIB: THREE consecutive fully symbolic operations (next-hop / group of <=1 member / IPv4 entry; ADD/REPLACE/DELETE; any instance name)"
 _RT = [(h, _B[h]) for h in ("VfRIB_t1", "VfRIB_t1r", "VfRIB_t2", "VfRIB_tOrder")]
@@ -196,6 +200,8 @@ CHECKS["C07"] = dict(
 CHECKS["C13"] = dict(
     runs=[dict(pkg="client", harness="VfC13_accounting_q", reach=["end", "pre-built", "await-ok", "await-errors"], thorough=dict(skip=True),
                bounds="client in RIB-ack or FIB-ack mode after StartSending; 0-2 operations queued in separate requests or in ONE request (symbolic ids - equal ids included -, ADD/REPLACE, IPv4/group/MPLS, symbolic key), handshake answered or not; ONE response of any shape: 1-2 results (symbolic id, status in {FAILED,RIB_PROGRAMMED,FIB_PROGRAMMED,FIB_FAILED,UNSET}), election, session parameters, or mixed content; then the convergence check"),
+          dict(pkg="client", harness="VfC13_longReader", reach=["end"], validate=1, opts=dict(only=["C13:"], unwind=40),
+               bounds="'at all times': a reader holds the results read lock (a long Results / AckResult / Status call) before or after the session's own requests, 1..3 operations are queued and answered; when no goroutine can move any more, every request handed over is pending xor resulted (operations, election update, session parameters); after the reader has gone the client converges with one result per operation"),
           dict(pkg="client", harness="VfC13_recvViolation", reach=["end"], validate=0, replay_attempts=30, opts=dict(unwind=40),
                bounds="the REAL receive loop (Connect's sender / receiver goroutines on a scripted stream): 1-2 operations queued; the answer completes the last pending operation and also carries a result for an id never sent; AwaitConverged runs concurrently - every schedule with up to 2 pre-emptive context switches at synchronisation points; it never reports success"),
           dict(pkg="client", harness="VfC14_endedThenQueue", reach=["end", "queued"], validate=2, opts=dict(unwind=40, only=["C13:"], timeout_s=600),
@@ -208,7 +214,9 @@ CHECKS["C13"] = dict(
     level_note="Trusted: go/ssa, gosym (sync/atomic, time.Sleep stubs), z3.")
 
 CHECKS["C17"] = dict(
-    runs=[dict(pkg="chk", harness="VfC17_hasResult", reach=["end"],
+    runs=[dict(pkg="chk", harness="VfC17_hasResultSession", reach=["end"], opts=dict(only=["C17:"]),
+               bounds="session-level results: the session-parameters result and the election id are each absent / present with the zero value (status OK, id 0/0) / present with another value (any 128-bit id), on the wanted result and on 0-1 received results, every option combination: HasResult fails iff absent; HasResultsCache never passes where it fails"),
+          dict(pkg="chk", harness="VfC17_hasResult", reach=["end"],
                bounds="0-2 results and one wanted result, each with symbolic operation id, status, optional server error, optional details (ADD/DELETE x next-hop-group / next-hop / IPv4 / IPv6 / MPLS key); all four option combinations"),
           dict(pkg="chk", harness="VfC17_hasResultsCache", reach=["end"], bounds="as hasResult; compared with the specification of the plain checker"),
           dict(pkg="chk", harness="VfC17_hasResultsCache2", reach=["end"], bounds="TWO wanted results of independent shapes (with / without details, any kind, symbolic ids / keys) against 0-1 results, all option combinations: passes iff every want is present, each judged by its own fields"),
@@ -248,6 +256,10 @@ CHECKS["C15"] = dict(
                bounds="intended and target RIB each built canonically with symbolic contents (1 next-hop, 1 group <=1 member, 1 IPv4/MPLS entry in either of two instances, all optional), optionally a third instance only the target has (one next-hop); Reconcile, operations applied to the target's real RIB in the documented order, result compared with the intended reference; second Reconcile must be empty; then a tear-down Reconcile towards an empty intended RIB whose deletes must all succeed; symbolic id base"),
           dict(pkg="rib/reconciler", harness="VfC15_reconcile_qx", load=["rib/reconciler"], reach=["end", "built"], opts=dict(only=["C15:"]),
                bounds="cross-instance references: on each side next-hop 1 in both instances, an optional group (symbolic id) in each instance, one optional IPv4 entry (symbolic prefix / group id) in either instance whose group instance is unset (its own instance) or explicit (either instance); Reconcile, apply in order, compare, second Reconcile empty"),
+          dict(pkg="rib/reconciler", harness="VfC15_reconcile_qb", load=["rib/reconciler"], reach=["end", "built"], opts=dict(only=["C15:"]),
+               bounds="backup groups: one next-hop and up to two groups (ids 1, 2) on each side, either naming the other as its backup (chains and cycles, 7 x 7 shapes); EVERY iteration order of the maps the reconciler walks (the order inside Delete.NHG etc. is not documented); tear-down round towards the empty RIB in one map order"),
+          dict(pkg="rib/reconciler", harness="VfC15_reconcile_qbt", load=["rib/reconciler"], reach=["end", "built"], quick=dict(skip=True), opts=dict(only=["C15:"]),
+               bounds="as reconcile_qb, and the tear-down round also in every map order (53 504 paths)"),
           dict(pkg="rib/reconciler", harness="VfC15_reconcile_qw", load=["rib/reconciler"], reach=["end", "built"], opts=dict(only=["C15:"]),
                bounds="weighted groups: 1 next-hop + 1 group (<=1 member with an optional weight of any value) per side; Reconcile, apply, compare, second Reconcile empty, then a tear-down Reconcile towards an empty intended RIB whose deletes must all succeed"),
           dict(pkg="rib/reconciler", harness="VfC15_reconcile_t", load=["rib/reconciler"], reach=["end", "built"], quick=dict(skip=True), opts=dict(only=["C15:"]),
